@@ -7,6 +7,7 @@
     c05.insert N F m (len e_1…e_len)*         INSERT INTO N (fields) VALUES …                   → result
     c05.insertsel N F src k e_1…e_k cond      INSERT INTO N (fields) SELECT e… FROM src WHERE cond
     c05.replace N F nk key… m (len e…)*       REPLACE INTO N (fields) USING (keys) VALUES …
+    c05.replacesel N F nk key… src k e_1…e_k cond   REPLACE INTO N (fields) USING (keys) SELECT e… FROM src WHERE cond
     c05.update N n (field e)* cond            UPDATE N SET … WHERE cond
     c05.delete N cond                         DELETE FROM N WHERE cond
     c05.updatem nt T… nf F… n (tbl field e)* cond   UPDATE T… SET … FROM F… (cross join) WHERE cond
@@ -22,7 +23,8 @@
   result = `ok T:count,… m=<marked tables, sorted> dump…` | `E<code> m=… dump…` (dumps of the target tables).
 
   Expressions (prefix notation): `=<profile>` literal, `$col` / `$tbl.col`, `+ - * / %` a b,
-  `eq ne lt le gt ge` a b, `and` / `or` a b, `not` a, `isnull` a — with csvq's short-circuits.
+  `eq ne lt le gt ge` a b, `and` / `or` a b, `not` a, `isnull` a — with csvq's short-circuits;
+  `cell tbl col k` = the scalar sub-query `(SELECT col FROM tbl WHERE id = k)` (NULL / the cell / error 10601).
 -/
 import Csvq.Model.Proto
 import Csvq.Model.Sort
@@ -39,6 +41,8 @@ inductive Ex
   | or (a b : Ex)
   | not (a : Ex)
   | isNull (a : Ex)
+  /-- scalar sub-query `(SELECT col FROM tbl WHERE id = k)` -/
+  | cell (tbl col : String) (k : Ex)
   deriving Inhabited
 
 /-- evaluation context: per table of the statement its name, header and current record -/
@@ -71,52 +75,70 @@ def ofCalc : CalcRes → Except Err Cell
 
 def ternCell (t : Tern) : Cell := profileOf (.tern t)
 
-def eval (ctx : Ctx) : Ex → Except Err Cell
+def eval (ts : Tables) (ctx : Ctx) : Ex → Except Err Cell
   | .lit c => .ok c
   | .col t n => lookupCol ctx t n
   | .arith op a b =>
-    match eval ctx a with
+    match eval ts ctx a with
     | .error e => .error e
     | .ok x =>
       if x.isNull then .ok nullCell
-      else match eval ctx b with
+      else match eval ts ctx b with
         | .error e => .error e
         | .ok y => ofCalc (calculate FVal.ieee op x y)
   | .cmp op a b =>
-    match eval ctx a with
+    match eval ts ctx a with
     | .error e => .error e
     | .ok x =>
       if x.isNull then .ok (ternCell .U)
-      else match eval ctx b with
+      else match eval ts ctx b with
         | .error e => .error e
         | .ok y => .ok (ternCell (Csvq.compare op x y))
   | .and a b =>
-    match eval ctx a with
+    match eval ts ctx a with
     | .error e => .error e
     | .ok x =>
       if x.tern = .F then .ok (ternCell .F)
-      else match eval ctx b with
+      else match eval ts ctx b with
         | .error e => .error e
         | .ok y => .ok (ternCell (Tern.and x.tern y.tern))
   | .or a b =>
-    match eval ctx a with
+    match eval ts ctx a with
     | .error e => .error e
     | .ok x =>
       if x.tern = .T then .ok (ternCell .T)
-      else match eval ctx b with
+      else match eval ts ctx b with
         | .error e => .error e
         | .ok y => .ok (ternCell (Tern.or x.tern y.tern))
   | .not a =>
-    match eval ctx a with
+    match eval ts ctx a with
     | .error e => .error e
     | .ok x => .ok (ternCell x.tern.not)
   | .isNull a =>
-    match eval ctx a with
+    match eval ts ctx a with
     | .error e => .error e
     | .ok x => .ok (ternCell (Tern.ofBool x.isNull))
+  | .cell tbl col k =>
+    match eval ts ctx k with
+    | .error e => .error e
+    | .ok kv =>
+      match lookupT ts tbl with
+      | none => .error .noTable
+      | some t =>
+        match colIndex t.header col, colIndex t.header "id" with
+        | .ok j, .ok i =>
+          let hits := t.rows.filter fun r =>
+            let c := r[i]?.getD nullCell
+            !c.isNull && Csvq.compare .eq c kv == Tern.T
+          match hits with
+          | [] => .ok nullCell
+          | [r] => .ok (r[j]?.getD nullCell)
+          | _ => .error (.other 10601)
+        | .error e, _ => .error e
+        | _, .error e => .error e
 
-def evalCond (ctx : Ctx) (e : Ex) : Except Err Tern :=
-  match eval ctx e with
+def evalCond (ts : Tables) (ctx : Ctx) (e : Ex) : Except Err Tern :=
+  match eval ts ctx e with
   | .error er => .error er
   | .ok c => .ok c.tern
 
@@ -149,6 +171,13 @@ def parseEx : Nat → List String → Option (Ex × List String)
       | "or" => two .or
       | "not" => one .not
       | "isnull" => one .isNull
+      | "cell" =>
+        match rest with
+        | t :: c :: r0 =>
+          match parseEx fuel r0 with
+          | none => none
+          | some (k, r1) => some (.cell t c k, r1)
+        | _ => none
       | "eq" => two (.cmp .eq) | "ne" => two (.cmp .ne) | "lt" => two (.cmp .lt)
       | "le" => two (.cmp .le) | "gt" => two (.cmp .gt) | "ge" => two (.cmp .ge)
       | _ => match parseAOp tok with
@@ -193,12 +222,12 @@ def parseValueRows : Nat → List String → Option (List (List Ex) × List Stri
         | none => none
         | some (es, r) => (parseValueRows m r).map fun p => (es :: p.1, p.2)
 
-def evalRow (ctx : Ctx) : List Ex → Except Err Row
+def evalRow (ts : Tables) (ctx : Ctx) : List Ex → Except Err Row
   | [] => .ok []
   | e :: es =>
-    match eval ctx e with
+    match eval ts ctx e with
     | .error er => .error er
-    | .ok v => match evalRow ctx es with | .error er => .error er | .ok vs => .ok (v :: vs)
+    | .ok v => match evalRow ts ctx es with | .error er => .error er | .ok vs => .ok (v :: vs)
 
 def parseSets : Nat → List String → Option (List (String × Ex) × List String)
   | 0, toks => some ([], toks)
@@ -326,7 +355,7 @@ def step (s : State) (cmd : String) (args : List String) : State × String :=
         | none => bad
         | some m =>
           match parseValueRows m r2 with
-          | some (rows, []) => runStmt s (.insert n fields fun _ => rows.map (evalRow [])) [n]
+          | some (rows, []) => runStmt s (.insert n fields fun ts => rows.map (evalRow ts [])) [n]
           | _ => bad
   | "insertsel", n :: rest =>
     match takeFields rest with
@@ -346,10 +375,10 @@ def step (s : State) (cmd : String) (args : List String) : State × String :=
                 match lookupT ts src with
                 | none => [.error .noTable]
                 | some t =>
-                  match filterView (fun (r : Row) => evalCond [(src, t.header, r)] cond) (withIdsFrom t.rows 0) with
+                  match filterView (fun (r : Row) => evalCond ts [(src, t.header, r)] cond) (withIdsFrom t.rows 0) with
                   | .error e => [.error e]
                   | .ok view =>
-                    let given := view.map fun x => evalRow [(src, t.header, x.2)] es
+                    let given := view.map fun x => evalRow ts [(src, t.header, x.2)] es
                     let nf := (fields.getD (headerOf ts n)).length
                     if given.all (fun g => match g with | .ok _ => true | .error _ => false) && k ≠ nf
                     then [.error .selLen] else given
@@ -370,8 +399,40 @@ def step (s : State) (cmd : String) (args : List String) : State × String :=
           | none => bad
           | some m =>
             match parseValueRows m r3 with
-            | some (rows, []) => runStmt s (.replace keqSort n fields keys fun _ => rows.map (evalRow [])) [n]
+            | some (rows, []) => runStmt s (.replace keqSort n fields keys fun ts => rows.map (evalRow ts [])) [n]
             | _ => bad
+  | "replacesel", n :: rest =>
+    -- REPLACE INTO n (fields) USING (keys) SELECT e… FROM src WHERE cond
+    match takeFields rest with
+    | none => bad
+    | some (fields, r1) =>
+      match takeN r1 with
+      | none => bad
+      | some (keys, r2) =>
+        match r2 with
+        | src :: k :: r3 =>
+          match k.toNat? with
+          | none => bad
+          | some k =>
+            match parseExs k r3 with
+            | none => bad
+            | some (es, r4) =>
+              match pEx r4 with
+              | some (cond, []) =>
+                let srcFn : Tables → List (Except Err Row) := fun ts =>
+                  match lookupT ts src with
+                  | none => [.error .noTable]
+                  | some t =>
+                    match filterView (fun (r : Row) => evalCond ts [(src, t.header, r)] cond) (withIdsFrom t.rows 0) with
+                    | .error e => [.error e]
+                    | .ok view =>
+                      let given := view.map fun x => evalRow ts [(src, t.header, x.2)] es
+                      let nf := (fields.getD (headerOf ts n)).length
+                      if given.all (fun g => match g with | .ok _ => true | .error _ => false) && k ≠ nf
+                      then [.error .selLen] else given
+                runStmt s (.replace keqSort n fields keys srcFn) [n]
+              | _ => bad
+        | _ => bad
   | "update", n :: k :: rest =>
     match k.toNat? with
     | none => bad
@@ -382,14 +443,14 @@ def step (s : State) (cmd : String) (args : List String) : State × String :=
         match pEx r1 with
         | some (cond, []) =>
           let h := headerOf s.tables n
-          runStmt s (.update n (fun r => evalCond [(n, h, r)] cond)
-            (sets.map fun p => { field := p.1, expr := fun r => eval [(n, h, r)] p.2 })) [n]
+          runStmt s (.update n (fun r => evalCond s.tables [(n, h, r)] cond)
+            (sets.map fun p => { field := p.1, expr := fun r => eval s.tables [(n, h, r)] p.2 })) [n]
         | _ => bad
   | "delete", n :: rest =>
     match pEx rest with
     | some (cond, []) =>
       let h := headerOf s.tables n
-      runStmt s (.delete n fun r => evalCond [(n, h, r)] cond) [n]
+      runStmt s (.delete n fun r => evalCond s.tables [(n, h, r)] cond) [n]
     | _ => bad
   | "updatem", rest =>
     match takeN rest with
@@ -410,8 +471,8 @@ def step (s : State) (cmd : String) (args : List String) : State × String :=
               match pEx r4 with
               | some (cond, []) =>
                 let mk (rows : List Row) : Ctx := (froms.zip rows).map fun p => (p.1, headerOf s.tables p.1, p.2)
-                runStmt s (.updateMulti targets froms (fun rows => evalCond (mk rows) cond)
-                  (sets.map fun p => (p.1, { field := p.2.1, expr := fun rows => eval (mk rows) p.2.2 }))) targets
+                runStmt s (.updateMulti targets froms (fun rows => evalCond s.tables (mk rows) cond)
+                  (sets.map fun p => (p.1, { field := p.2.1, expr := fun rows => eval s.tables (mk rows) p.2.2 }))) targets
               | _ => bad
   | "deletem", rest =>
     match takeN rest with
@@ -423,7 +484,7 @@ def step (s : State) (cmd : String) (args : List String) : State × String :=
         match pEx r2 with
         | some (cond, []) =>
           let mk (rows : List Row) : Ctx := (froms.zip rows).map fun p => (p.1, headerOf s.tables p.1, p.2)
-          runStmt s (.deleteMulti targets froms fun rows => evalCond (mk rows) cond) targets
+          runStmt s (.deleteMulti targets froms fun rows => evalCond s.tables (mk rows) cond) targets
         | _ => bad
   | "addcol", n :: pos :: k :: rest =>
     match parsePos pos, k.toNat? with
@@ -431,7 +492,7 @@ def step (s : State) (cmd : String) (args : List String) : State × String :=
       match parseColDefs k rest with
       | some (defs, []) =>
         let h := headerOf s.tables n
-        runStmt s (.addCols n pos (defs.map fun d => (d.1, d.2.map fun e => fun r => eval [(n, h, r)] e))) [n]
+        runStmt s (.addCols n pos (defs.map fun d => (d.1, d.2.map fun e => fun r => eval s.tables [(n, h, r)] e))) [n]
       | _ => bad
     | _, _ => bad
   | "dropcol", n :: rest =>
@@ -459,9 +520,9 @@ def step (s : State) (cmd : String) (args : List String) : State × String :=
               match lookupT ts src with
               | none => [.error .noTable]
               | some t =>
-                match filterView (fun (r : Row) => evalCond [(src, t.header, r)] cond) (withIdsFrom t.rows 0) with
+                match filterView (fun (r : Row) => evalCond ts [(src, t.header, r)] cond) (withIdsFrom t.rows 0) with
                 | .error e => [.error e]
-                | .ok view => view.map fun x => evalRow [(src, t.header, x.2)] es
+                | .ok view => view.map fun x => evalRow ts [(src, t.header, x.2)] es
             let r := stmtImpl s (.create n cols (some (k, srcFn)))
             (r.1, showResult r.1 r.2 (match r.2 with | .ok _ => [n] | .error _ => []))
           | _ => bad
